@@ -75,6 +75,46 @@ TABLE.update({
     "C17c": ("C17", "/tmp/seed2/C17/c", "RunSequencer returns nil on context cancellation: pending waiters panic ('result is missing'), later submissions are queued into the dead pool", ["C17"]),
     "C17d": ("C17", "/tmp/seed2/C17/d", "deduplication lookups answered before the 'sequencer stopped' check: needs sequence, stop, resubmit the same entry", ["C17"]),
     "C17e": ("C17", "/tmp/seed2/C17/e", "503 decision keyed on source == ratelimit: an evicted pending submitter gets 500 over HTTP; needs a full pool, a pending low-priority chain and a high-priority arrival", ["C17"]),
+    "C04c": ("C04", "/tmp/seed2/C04/c", "issuer fingerprint marked known before the fetch/upload, lock released during the call: needs two concurrent submissions sharing a new issuer, a slow or failing issuer upload and a sequencer tick in between", ["C04"]),
+    "C04d": ("C04", "/tmp/seed2/C04/d", "after the lock commit a tile-upload error wrapping context.DeadlineExceeded is made non-fatal: needs a TIMEOUT-kind error on a tile upload, then one more round publishing a checkpoint whose tiles exist only in the staging bundle", ["C04", "C01"]),
+    "C04e": ("C04", "/tmp/seed2/C04/e", "partial-aftersun edge guard t.N*tileSize >= size: deletes the right-edge partial when the next tree's full tile is on disk but the checkpoint is still the old one", ["C18"]),
+    "C05c": ("C05", "/tmp/seed2/C05/c", "SQLite Replace = SELECT, Go compare, UPDATE without the body guard: needs two connections/processes replacing concurrently", ["C05"]),
+    "C05d": ("C05", "/tmp/seed2/C05/d", "ETag Create drops the empty If-Match (helper skips empty header values): needs a second Create of an existing log ID", ["C05"]),
+    "C05e": ("C05", "/tmp/seed2/C05/e", "DynamoDB Fetch without ConsistentRead: needs a lagging replica", ["C05"]),
+    "C07c": ("C07", "/tmp/seed2/C07/c", "duplicate check and pool insertion split by the issuer upload (lock released): needs submission A stuck on a slow issuer upload while B (same certificate) is admitted, sequenced and acknowledged", ["C07", "C04"]),
+    "C07d": ("C07", "/tmp/seed2/C07/d", "legacy-cache hits queued for promotion and written with the round's cachePut in one savepoint: a duplicate key rolls the whole batch back; needs a legacy-only entry resubmitted twice plus a new entry", ["C07"]),
+    "C07e": ("C07", "/tmp/seed2/C07/e", "eviction refactor shadows the slot index: the waiter returns firstLeafIndex+PoolSize; needs a full bounded pool with a low-priority entry and a high-priority arrival", ["C17", "C07"]),
+    "C08c": ("C08", "/tmp/seed2/C08/c", "LoadLog resumes from the published checkpoint when the lock checkpoint's staging bundle is missing: needs a rolled-back bucket / deleted bundle, restart, one round; commits a fork at the lock store", ["C08", "C06"]),
+    "C08d": ("C08", "/tmp/seed2/C08/d", "verify-then-load refactor re-fetches right-edge hash tiles unverified: needs a level>=1 tile changed between the two reads during start-up (tree >= 257)", ["C08"]),
+    "C08e": ("C08", "/tmp/seed2/C08/e", "level-0 edge rebuilt from the unauthenticated right-most data tile: needs one entry of that tile altered so it still parses, restart, one round", ["C08"]),
+    "C08f": ("C08", "/tmp/seed2/C08/f", "(bonus, acknowledgement level only) issuer marked known before comparison with the stored object: second submission through an altered issuer object is accepted; signed checkpoints stay consistent", ["C08"]),
+    "C09c": ("C09", "/tmp/seed2/C09/c", "issuer key hash of the precertificate signing certificate instead of its issuer: needs add-pre-chain through a CT-EKU signing certificate", ["C09"]),
+    "C09d": ("C09", "/tmp/seed2/C09/d", "NotAfter window check moved out of ValidateChain and made inclusive at the limit: needs NotAfter == NotAfterLimit to the second", ["C09"]),
+    "C09e": ("C09", "/tmp/seed2/C09/e", "issuer marked stored before its upload succeeded: needs a failed issuer upload (refused) followed by a resubmission, accepted with the issuer object missing", ["C09", "C04"]),
+    "C10c": ("C10", "/tmp/seed2/C10/c", "tile-leaf reader uses the lenient ParseExtensions: unknown / duplicate / trailing extensions accepted", ["C10"]),
+    "C10d": ("C10", "/tmp/seed2/C10/d", "40-bit leaf index decoded with a uint32 shift: needs a leaf index >= 2^32", ["C10"]),
+    "C10e": ("C10", "/tmp/seed2/C10/e", "ParseTilePath also accepts tile/entries/...: two spellings for one data tile", ["C10"]),
+    "C11c": ("C11", "/tmp/seed2/C11/c", "shared signature parser drops the !s.Empty() check: trailing bytes after the TreeHeadSignature accepted", ["C11"]),
+    "C11d": ("C11", "/tmp/seed2/C11/d", "signTreeHead signs with a randomised nonce (digitallySign stays deterministic): needs signing the same tree head twice", ["C11"]),
+    "C11e": ("C11", "/tmp/seed2/C11/e", "origin comparison removed from the verifier: a genuine signature line verifies under a foreign origin line", ["C11", "C12"]),
+    "C12c": ("C12", "/tmp/seed2/C12/c", "entry type chosen by IsPrecert && len(PreCertificate) > 0 when hashing: an x509 leaf served as precert_entry with forged issuer key hash and empty pre_certificate is yielded", ["C12"]),
+    "C12d": ("C12", "/tmp/seed2/C12/d", "CheckInclusion no longer compares the SCT timestamp with the leaf: needs a genuine SCT with an altered timestamp", ["C12"]),
+    "C12e": ("C12", "/tmp/seed2/C12/e", "checkpoint verifier loses the extension-line rejection: needs a signed checkpoint served with extension lines", ["C12", "C11"]),
+    "C13c": ("C13", "/tmp/seed2/C13/c", "compareFile (io.ReadFull) never compares the last size%16384 bytes: needs an immutable object > 16 KiB, not a multiple of it, differing only in the tail", ["C13"]),
+    "C13d": ("C13", "/tmp/seed2/C13/d", "iterative MkdirAll fsyncs the parent of the deepest new directory only: with >= 2 new levels the existing ancestor's entry is never synced; needs power loss", ["C13"]),
+    "C13e": ("C13", "/tmp/seed2/C13/e", "fsyncAndClose resets an earlier error when the fsync succeeds: needs a failing write (ENOSPC/EIO) or rename; the truncated temp file is published and Upload returns nil", ["C13"]),
+    "C16c": ("C16", "/tmp/seed2/C16/c", "signers chosen by signature-line name, one combined re-verification: a mirror-only checkpoint plus any line bearing the witness name yields a witness ML-DSA subtree signature", ["C16"]),
+    "C16d": ("C16", "/tmp/seed2/C16/d", "whole-tree fast path lacks end == N: [0,end) with the root hash of the size-N tree and no proof is signed", ["C16"]),
+    "C16e": ("C16", "/tmp/seed2/C16/e", "cache of verified ML-DSA cosignatures shared by witness and mirror verifiers without the verifier in the key: needs one genuine request, then the signature relabelled with the other key's name/hash", ["C16"]),
+    "C18c": ("C18", "/tmp/seed2/C18/c", "right edge for data/names/entries levels computed at level -1 (edge = size): needs storage ahead of the published checkpoint so that the right-edge bundle exists as partial and full", ["C18"]),
+    "C18d": ("C18", "/tmp/seed2/C18/d", "names index shared across directories + Info() from it instead of Stat(full): a partial whose full tile is missing is deleted when the same 3-digit name was seen elsewhere", ["C18"]),
+    "C18e": ("C18", "/tmp/seed2/C18/e", "dot-files in a superseded NNN.p directory skipped and the directory removed with RemoveAll: stray temp files deleted", ["C18"]),
+    "C19c": ("C19", "/tmp/seed2/C19/c", "log file handler on os.DirFS(root.Name()): symlinks inside a log directory leading out are followed", ["C19"]),
+    "C19d": ("C19", "/tmp/seed2/C19/d", "missing tile/....p/W answered with the full tile: needs partial served, tree grown, partial deleted, partial requested again", ["C19"]),
+    "C19e": ("C19", "/tmp/seed2/C19/e", "content headers dropped on every non-200 status behind the rate limiter: 206 answers to Range requests lose gzip / immutable", ["C19"]),
+    "C20c": ("C20", "/tmp/seed2/C20/c", "final-tree mismatch errors wrap errLogSunset: a sunset log whose checkpoint differs from final_tree_head is reported read-only (200)", ["C20"]),
+    "C20d": ("C20", "/tmp/seed2/C20/d", "witness/mirror verifier keys loaded once at start-up: rewriting or removing witness.v0.json / mirror.v0.json under the running server stays green", ["C20"]),
+    "C20e": ("C20", "/tmp/seed2/C20/e", "right-edge verification cached per (directory, origin, tree): a tile damaged after one green probe goes unnoticed", ["C20"]),
 })
 
 
